@@ -108,6 +108,25 @@ structure PInfo where
 def lookupCI (l : List (String × String)) (k : String) : Option String :=
   (l.find? fun (a, _) => a.toLower = k.toLower).map (·.2)
 
+/-- go-playground's `oneof`: its options are the matches of `'[^']*'|\S+` in the rule's argument, quotes stripped -/
+def oneofOpts : Nat → List Char → List String
+  | 0, _ => []
+  | _, [] => []
+  | fuel + 1, c :: t =>
+    if c = ' ' then oneofOpts fuel t
+    else if c = '\'' && t.contains '\'' then
+      String.ofList (t.takeWhile (· ≠ '\'')) :: oneofOpts fuel ((t.dropWhile (· ≠ '\'')).drop 1)
+    else String.ofList ((c :: t).takeWhile (· ≠ ' ')) :: oneofOpts fuel ((c :: t).dropWhile (· ≠ ' '))
+
+/-- the part of the declared validator the rig's parameters use: `oneof=` on a string value (every other rule the rig
+    attaches to a parameter is `required`, which presence already covers) -/
+def validatorAccepts (tag : String) (raw : String) : Bool :=
+  (Gleece.Text.splitOn ',' tag.toList).all fun rule =>
+    if rule.take 6 = "oneof=".toList then
+      let arg := rule.drop 6
+      (oneofOpts (arg.length + 1) arg).contains raw
+    else true
+
 /-- one parameter: `none` = the request is refused with 422; `some text` = the argument as printed -/
 def bindParam (enums : List String) (bound : List (String × String)) (rq : Req) (pi : PInfo) : Option String :=
   if pi.p.isContext then some "ctx" else
@@ -132,7 +151,10 @@ def bindParam (enums : List String) (bound : List (String × String)) (rq : Req)
       else none
     match raw with
     | none => if required then none else some "<nil>"
-    | some r => (convertScalar enums base r).map fun t => (if isPtr then "&" else "") ++ t
+    | some r =>
+      -- the value is converted, then handed to the validator with the DECLARED tag
+      if base = "string" && !validatorAccepts pi.p.validator r then none
+      else (convertScalar enums base r).map fun t => (if isPtr then "&" else "") ++ t
 
 def bindAll (enums : List String) (bound : List (String × String)) (rq : Req) : List PInfo → Option (List String)
   | [] => some []
@@ -229,7 +251,9 @@ def bindParamA (enums : List String) (acc : Accessors) (pi : PInfo) : Option Str
   else
     match acc.scalar pi with
     | none => if required then none else some "<nil>"
-    | some r => (convertScalar enums base r).map fun t => (if isPtr then "&" else "") ++ t
+    | some r =>
+      if base = "string" && !validatorAccepts pi.p.validator r then none
+      else (convertScalar enums base r).map fun t => (if isPtr then "&" else "") ++ t
 
 def bindAllA (enums : List String) (acc : Accessors) : List PInfo → Option (List String)
   | [] => some []
